@@ -18,7 +18,7 @@ import (
 func c03Order(c *Ctx) {
 	m := c.newMatchModel()
 	errT := types.Universe.Lookup("error").Type()
-	n := 0
+	n, n11 := 0, 0
 	for _, f := range m.fns {
 		loops := flow.Loops(f)
 		for _, l := range loops {
@@ -77,14 +77,136 @@ func c03Order(c *Ctx) {
 				// a range over the alternatives themselves that stops at the first taker: which one is taken follows map order
 				bad = true
 			}
+			if c03Prevalidated(c, m, f, l, loops, rg, errT) {
+				n11++
+			}
 			c.R.Check(!bad, "C03-R3", fmt.Sprintf("%s: range over %s", fname(f), role), c.pos(rg), fmt.Sprintf("early exits of at most one failure class: %s", strings.Join(cs, ", ")),
 				"the outcome depends on which key the runtime visits first (an error or a plain no-match; or a loop over alternatives that stops at the first one that fits): "+strings.Join(cs, ", "))
 		}
 	}
 	if n == 0 {
 		c.R.Break("C03-R3: no map range found in package match")
+	} else if n11 == 0 {
+		c.R.Discharge("C03-R11", "match: no error about a ranged map as a whole is raised inside a loop that also has a no-match exit", "match/match.go", fmt.Sprintf("%d ranges over maps examined", n))
 	}
 	if m.branchPrivacy("C03-R5") == 0 {
 		c.R.Break("C03-R5: no call inside a loop over alternatives found")
 	}
+}
+
+// c03Prevalidated: C03-R11.  An error exit inside a range over a map whose error does not come from matching a
+// member against the message (errors.New and the like, or a callee that is handed no message part) is an error about
+// the map as a whole that is found at whichever key the runtime visits first; a plain no-match exit of the same loop
+// at another key then makes the outcome follow the iteration order.  The unchanged tree has such exits (a variable
+// among several keys) and they are sound only because the whole map is validated before the loop is entered: a call
+// that is given the ranged map and returns just an error, in a block that dominates the loop header (or a separate
+// loop over the same map with an error exit, the validation spelled out in place).  The rule demands that validation
+// wherever such an exit exists next to a no-match exit.
+func c03Prevalidated(c *Ctx, m *matchModel, f *ssa.Function, l *flow.Loop, loops []*flow.Loop, rg *ssa.Range, errT types.Type) bool {
+	seenB := map[*ssa.BasicBlock]bool{}
+	var whole func(v ssa.Value, seen map[ssa.Value]bool) string
+	whole = func(v ssa.Value, seen map[ssa.Value]bool) string {
+		if v == nil || seen[v] || ssau.IsNilConst(v) {
+			return ""
+		}
+		seen[v] = true
+		switch x := v.(type) {
+		case *ssa.Phi:
+			for _, e := range x.Edges {
+				if w := whole(e, seen); w != "" {
+					return w
+				}
+			}
+		case *ssa.Extract:
+			return whole(x.Tuple, seen)
+		case *ssa.MakeInterface:
+			return whole(x.X, seen)
+		case *ssa.Call:
+			sc := x.Common().StaticCallee()
+			if sc == nil {
+				return ""
+			}
+			if sc.Pkg != nil && (sc.Pkg.Pkg.Path() == "errors" || sc.Pkg.Pkg.Path() == "fmt") {
+				return sc.Name() + " at " + c.pos(x)
+			}
+			if !l.Blocks[x.Block()] && !seenB[x.Block()] {
+				return ""
+			}
+			for _, a := range x.Common().Args {
+				if m.has(a, "F") {
+					return ""
+				}
+			}
+			if len(x.Common().Args) > 0 {
+				return fname(sc) + " (given no part of the message) at " + c.pos(x)
+			}
+		}
+		return ""
+	}
+	wholeErr, noMatch := "", false
+	// the ways out of the loop other than its normal end: every return that can be reached from the target of an
+	// exit edge without re-entering the loop (a branch whose every way ends in a return is not part of the natural loop)
+	var work []*ssa.BasicBlock
+	for _, ex := range l.Exits() {
+		if ex[0] != l.Header {
+			work = append(work, ex[1])
+		}
+	}
+	for len(work) > 0 {
+		b := work[len(work)-1]
+		work = work[:len(work)-1]
+		if seenB[b] || l.Blocks[b] {
+			continue
+		}
+		seenB[b] = true
+		work = append(work, b.Succs...)
+		ret, isRet := b.Instrs[len(b.Instrs)-1].(*ssa.Return)
+		if !isRet || len(ret.Results) == 0 {
+			continue
+		}
+		last := ret.Results[len(ret.Results)-1]
+		if types.Identical(last.Type(), errT) && !ssau.IsNilConst(last) {
+			if w := whole(last, map[ssa.Value]bool{}); w != "" && wholeErr == "" {
+				wholeErr = w
+			}
+		} else if len(ret.Results) >= 2 && ssau.IsNilConst(ret.Results[0]) {
+			noMatch = true
+		}
+	}
+	if wholeErr == "" || !noMatch {
+		return false
+	}
+	validated := ""
+	ssau.Instrs(f, func(in ssa.Instruction) {
+		cl, ok := in.(*ssa.Call)
+		if !ok || validated != "" || in.Parent() != f || l.Blocks[cl.Block()] || !cl.Block().Dominates(l.Header) {
+			return
+		}
+		if !types.Identical(cl.Type(), errT) {
+			return
+		}
+		for _, a := range cl.Common().Args {
+			if a == rg.X {
+				validated = "validated as a whole by " + ssau.CalleeName(cl) + " at " + c.pos(cl)
+			}
+		}
+	})
+	for _, l2 := range loops {
+		if validated != "" || l2 == l || l.Blocks[l2.Header] || !l2.Header.Dominates(l.Header) {
+			continue
+		}
+		if op := loopOperand(l2); op == nil || op != rg.X {
+			continue
+		}
+		for _, ex := range l2.Exits() {
+			if ret, isRet := ex[1].Instrs[len(ex[1].Instrs)-1].(*ssa.Return); isRet && ex[0] != l2.Header && len(ret.Results) > 0 {
+				if last := ret.Results[len(ret.Results)-1]; types.Identical(last.Type(), errT) && !ssau.IsNilConst(last) {
+					validated = "validated as a whole by the loop at " + c.pos(l2.Header.Instrs[0])
+				}
+			}
+		}
+	}
+	c.R.Check(validated != "", "C03-R11", fmt.Sprintf("%s: errors about the ranged map as a whole", fname(f)), c.pos(rg), validated+"; the exit inside the loop ("+wholeErr+") cannot be met first at one key and missed at another",
+		"an error that concerns the whole map ("+wholeErr+") is raised inside the range over it, next to a plain no-match exit, and the map is not validated before the loop: which of the two comes out depends on the key visited first")
+	return true
 }
